@@ -15,7 +15,18 @@ DEFS = ['-DVERSION_INFO="verif"']
 
 
 def _inc():
-    return ['-I' + os.path.join(REPO, 'include')]
+    inc = ['-I' + os.path.join(REPO, 'include')]
+    # include/awkward/kernels.h is a generated, git-ignored file: scratch worktrees lack it -> fall back to /repo's copy
+    if not os.path.exists(os.path.join(REPO, 'include', 'awkward', 'kernels.h')):
+        fb = os.path.join(CACHE, 'fallback_inc', 'awkward')
+        src = '/repo/include/awkward/kernels.h'
+        if os.path.exists(src):
+            os.makedirs(fb, exist_ok=True)
+            dst = os.path.join(fb, 'kernels.h')
+            if not os.path.exists(dst) or open(dst, 'rb').read() != open(src, 'rb').read():
+                shutil.copy(src, dst)
+            inc.append('-I' + os.path.dirname(fb))
+    return inc
 
 
 @functools.lru_cache(None)
